@@ -25,6 +25,17 @@ boxR = z3.Function('boxR', R, Ref)              # a float stored where arbitrary
 unboxR = z3.Function('unboxR', Ref, R)
 boxI = z3.Function('boxI', I, Ref)
 unboxI = z3.Function('unboxI', Ref, I)
+ctype = z3.Function('container_type', Ref, I)     # static element/key/value type signature of a list / dict object
+_ctype_ids = {}
+
+
+def ctype_id(ty):
+    k = repr(ty)
+    if k not in _ctype_ids:
+        _ctype_ids[k] = len(_ctype_ids) + 1
+    return _ctype_ids[k]
+
+
 ULP = z3.Function('ulp', R, R)                  # np.nextafter(x, inf) - x  (> 0)
 
 _counter = itertools.count()
